@@ -37,6 +37,9 @@ type PredSpec struct {
 	ParamTy map[string]string `json:"param_ty"` // Go param name -> Lean type
 	RetTy   map[string]string `json:"ret_ty"`   // method -> Lean return type (default Bool)
 	ConstNS string            `json:"const_ns"` // namespace for same-package constants
+	// ErrAsBool lists methods returning `error` that are translated to Bool:
+	// `return nil` ↦ true, `return fmt.Errorf(…)` / `errors.New(…)` ↦ false.
+	ErrAsBool []string `json:"err_as_bool"`
 }
 
 type SkelSpec struct {
@@ -50,6 +53,9 @@ type SkelSpec struct {
 type Spec struct {
 	Module  string     `json:"module"`  // output file Gen/<Module>.lean
 	Imports []string   `json:"imports"` // other Gen modules this one refers to
+	// LeanImports lists further (hand-written, core-only) modules to import, e.g. the
+	// module that defines the receiver structure of a translated predicate.
+	LeanImports []string `json:"lean_imports"`
 	Consts []ConstSpec `json:"consts"`
 	Preds  []PredSpec  `json:"preds"`
 	Skels  []SkelSpec  `json:"skels"`
@@ -269,6 +275,7 @@ type predCtx struct {
 	recv    string // receiver variable name
 	locals  map[string]bool
 	methods map[string]bool
+	errBool bool // current method returns error, translated to Bool
 }
 
 func (c *predCtx) expr(e ast.Expr) string {
@@ -354,6 +361,9 @@ func (c *predCtx) expr(e ast.Expr) string {
 			// time.Now().After(x)  -> (now > x) ; time.Now().Before(x) -> (now < x)
 			if inner, ok := sel.X.(*ast.CallExpr); ok {
 				if is, ok := inner.Fun.(*ast.SelectorExpr); ok {
+					if pk, ok := is.X.(*ast.Ident); ok && pk.Name == "time" && is.Sel.Name == "Now" && len(e.Args) == 0 && sel.Sel.Name == "Unix" {
+						return "now" // time.Now().Unix(): the clock parameter, in seconds
+					}
 					if pk, ok := is.X.(*ast.Ident); ok && pk.Name == "time" && is.Sel.Name == "Now" && len(e.Args) == 1 {
 						a := c.expr(e.Args[0])
 						switch sel.Sel.Name {
@@ -481,6 +491,17 @@ func (c *predCtx) stmts(list []ast.Stmt, indent string) string {
 		if len(s.Results) != 1 {
 			die("pred %s: return with %d results", c.spec.NS, len(s.Results))
 		}
+		if c.errBool {
+			if id, ok := s.Results[0].(*ast.Ident); ok && id.Name == "nil" {
+				return indent + "true"
+			}
+			if ce, ok := s.Results[0].(*ast.CallExpr); ok {
+				if f := selStr(ce.Fun); f == "fmt.Errorf" || f == "errors.New" {
+					return indent + "false"
+				}
+			}
+			die("pred %s: unsupported error result %s", c.spec.NS, exprStr(s.Results[0]))
+		}
 		return indent + c.expr(s.Results[0])
 	case *ast.IfStmt:
 		if s.Init != nil {
@@ -538,6 +559,11 @@ func genPred(root string, ps *PredSpec, out *strings.Builder) {
 	fmt.Fprintf(out, "namespace %s\n", ps.NS)
 	for _, m := range ps.Methods {
 		c := &predCtx{p: p, spec: ps, locals: map[string]bool{}, methods: ms}
+		for _, eb := range ps.ErrAsBool {
+			if eb == m {
+				c.errBool = true
+			}
+		}
 		fd := c.lookup(m)
 		params := []string{}
 		if fd.Recv != nil && len(fd.Recv.List[0].Names) == 1 {
@@ -644,6 +670,9 @@ func genModule(repo string, spec *Spec, outDir string) {
 	cs.WriteString("/- GENERATED from the Go source by /verif/extract on every run. Do not edit. -/\nimport TunnoxModel.Model.PredPrelude\n")
 	for _, im := range spec.Imports {
 		cs.WriteString("import TunnoxModel.Gen." + im + "\n")
+	}
+	for _, im := range spec.LeanImports {
+		cs.WriteString("import " + im + "\n")
 	}
 	cs.WriteString("open Tunnox.PredPrelude\nnamespace Gen\n\n")
 	for _, c := range spec.Consts {
